@@ -146,7 +146,7 @@ def routine_header(kind: str = "GENERIC", idx: int = 0, linked_to: int = 0, link
 
 def header_variant(idx: int, variant: int) -> dict:
     """Deterministic variety of routine kinds (never coroutines: files with coroutines contain only coroutines)."""
-    v = variant % 5
+    v = variant % 7  # every targeted kind with a numeric and with a named target
     if v == 0:
         return routine_header("GENERIC", idx)
     if v == 1:
@@ -155,7 +155,11 @@ def header_variant(idx: int, variant: int) -> dict:
         return routine_header("OBJECT", idx, linked_to=-1, linked_to_name=f"OBJECT_{idx}")
     if v == 3:
         return routine_header("PERFORMER", idx, linked_to=idx)
-    return routine_header("ACTOR", idx, linked_to=-1, linked_to_name=f"ACTOR_N{idx}")
+    if v == 4:
+        return routine_header("ACTOR", idx, linked_to=-1, linked_to_name=f"ACTOR_N{idx}")
+    if v == 5:
+        return routine_header("PERFORMER", idx, linked_to=-1, linked_to_name=f"PERFORMER_{idx}")
+    return routine_header("OBJECT", idx, linked_to=3 + idx)
 
 
 def layout(sym: dict, scheme: str = "words", start: int = 0) -> dict:
@@ -383,7 +387,9 @@ _CMP_OPS = (2, 3, 4, 5, 6, 7, 8, 9, 10, 0, 1)
 
 
 def _s(text: str, multiline: bool) -> str:
-    return text.replace(" ", "\n", 1) + "\nlast" if multiline else text
+    # (every third text gets an EMPTY line inside: the printers must indent it like the other lines, or the least-indentation rule of
+    # the multi-line literal changes every other line when the text is compiled again)
+    return text.replace(" ", "\n\n" if len(text) % 3 == 0 else "\n", 1) + "\nlast" if multiline else text
 
 
 def plain_op(v: int, multiline: bool = False) -> list:
@@ -1226,6 +1232,11 @@ FIXED_PROGRAMS = [
     "def 0 {\n    @top;\n    a();\n    if ( $A == 1 ) {\n        jump @top;\n    }\n    call @sub;\n    b();\n    return;\n    @sub;\n    c();\n    return;\n}\ndef 1 for performer 2 {\n    jump @top;\n}\n",
     "def 0 {\n    if ( $A == 1 ) {\n        return;\n    }\n    if not ( $B < 1 ) {\n        end;\n    } else {\n        hold;\n    }\n}\n",
     "def 0 {\n    forever {\n        forever {\n            a();\n            if ( debug ) {\n                break_loop;\n            }\n        }\n        b();\n        if ( edit ) {\n            break_loop;\n        }\n    }\n    return;\n}\n",
+    # an if / elseif chain WITHOUT else inside a loop, every block of the chain leaving or repeating the loop, and code behind the
+    # chain that only the "no condition holds" path reaches
+    "def 0 {\n    op1(1);\n    forever {\n        op2(2);\n        op3(3);\n        op4(4);\n        if ( scn($S) >= [1, 2] ) {\n            while ( debug ) {\n                op5(5);\n                op6(6);\n            }\n        } elseif ( $A != 3 ) {\n        }\n        op7(7);\n    }\n    return;\n}\n",
+    "def 0 {\n    forever {\n        a();\n        if ( $A == 1 ) {\n            continue;\n        } elseif ( $B == 2 ) {\n            break_loop;\n        } elseif ( debug ) {\n            continue;\n        }\n        b();\n    }\n    c();\n    end;\n}\n",
+    "def 0 {\n    while ( $A == 1 ) {\n        a();\n        if ( $B == 2 ) {\n            for ($i = 0; $i < 2; $i += 1;) {\n                x();\n            }\n        } elseif ( edit ) {\n        } elseif ( $C > 1 ) {\n            break_loop;\n        }\n        b();\n    }\n    return;\n}\n",
     "def 0 {\n    $A = 1;\n    $B += 2;\n    $C[1] = 0;\n    clear $D;\n    init $E;\n    reset dungeon_result;\n    reset scn($S);\n    adventure_log = 3;\n    dungeon_mode(2) = DMC_REQUEST;\n    $PPL[2] = 1;\n    $F = scn[2, 3];\n    $G -= value($H);\n    return;\n}\n",
 ]
 
